@@ -8,6 +8,10 @@ thread_local! {
     pub static SEEN: RefCell<Vec<String>> = const { RefCell::new(Vec::new()) };
 }
 
+/// locals for dotted shorthand fields (`?conn.port`, `%conn.peer.id`)
+pub struct Peer { pub id: u8 }
+pub struct Conn { pub port: u8, pub peer: Peer }
+
 pub fn tick<T>(j: usize, v: T) -> T {
     TICKS.with(|t| { let mut t = t.borrow_mut(); if t.len() <= j { t.resize(j + 1, 0); } t[j] += 1; });
     v
